@@ -388,4 +388,6 @@ func c15(c *core.Ctx, r *core.Report) {
 	}
 	r.Floor("R15.merge", 3, "Merge, Matches, LessEqual")
 	c15matches(c, r)
+	guardKeyRule(c, r, "R15.once", func(fn *ssa.Function, rel string) bool { return rel == "analysis/escape" },
+		"a status or edge that the callee summary mandates for several caller nodes reaches only the first one processed: instantiation is not monotone (a larger input graph can yield a smaller output) and depends on map iteration order")
 }
